@@ -6,6 +6,8 @@ R03a  every write of a parallel task body is W-local, W-concurrent or W-own-inde
 R03b  parallel_reduce: identity is "not found" (or the neutral element of the named join), join is a minimum (A3)
 R03c  the reduce body returns its accumulator parameter and only updates it under the min-update contract
 R03d  containers appended to inside a parallel_for are only read after it returned
+R03e  the work for one index does not depend on the sub-range it was scheduled in (no loop-carried local state besides the
+      accumulator) nor on a shared atomic read in the body
 """
 import os
 
@@ -49,6 +51,9 @@ def check_body(rep, prog, eff, fn, call, lam_fn, role):
                 how.split(':', 1)[1] in par.CONCURRENT_GROWTH:
             classes.append('W-concurrent')
             written_roots.setdefault(root, []).append(('grow', node))
+            continue
+        if (rt.get('rec') or '') in ('std::atomic', 'std::atomic_flag') and not idx:
+            classes.append('W-atomic')
             continue
         if v['kind'] in ('static_local', 'global', 'static_member'):
             problems.append(('static', node, 'writes static-storage variable %s' % v['name']))
@@ -97,6 +102,8 @@ def check_body(rep, prog, eff, fn, call, lam_fn, role):
                 else:
                     problems.append(('shared', d, '%s[%s] is read while other tasks write %s[i] for i in [%s, %s): index not provably outside the range' % (
                         v['name'], j.text(20), v['name'], lo.text(20), hi.text(20))))
+    # R03e: schedule independence of the per-index work
+    check_schedule_independence(rep, prog, eff, fn, call, lam_fn, role)
     # static writes in transitive callees
     for (node, g, root) in eff.static_writes(lam_fn):
         if g is lam_fn:
@@ -111,6 +118,48 @@ def check_body(rep, prog, eff, fn, call, lam_fn, role):
         cnt = Counter(classes)
         rep.ok('R03a', call, fn, site_what, ', '.join('%d %s' % (n, c) for c, n in sorted(cnt.items())) or 'no writes at all',
                trivial=not classes)
+
+
+def check_schedule_independence(rep, prog, eff, fn, call, lam_fn, role):
+    """R03e: what a task computes for index i must not depend on which other indices the same task happened to process:
+    (1) no local declared in the body before the loop over its range is modified inside that loop, other than the accumulator
+    parameter and the induction variable; (2) the body does not read a shared std::atomic (its value depends on inter-task timing)"""
+    if role not in ('body',) or lam_fn.body is None:
+        return
+    ivs, rparam = par.induction_vars(lam_fn)
+    acc = lam_fn.param_ids[1] if call.callee['name'] == 'parallel_reduce' and len(lam_fn.param_ids) > 1 else None
+    loops = [x for x in lam_fn.body.c if x.k in ('ForStmt', 'WhileStmt')]
+    what = 'the work done for one index does not depend on the other indices handled by the same task or on inter-task timing'
+    problems = []
+    for lp in loops:
+        if not (lp.cond is not None and (ex.vars_in(lp.cond) & (ivs | ({rparam} if rparam is not None else set())))):
+            continue
+        for (node, target, how) in eff.writes(lam_fn):
+            if not lp.body.is_ancestor_of(node):
+                continue
+            root, idx, names = par.access_path(target)
+            if root is None or root in ivs or root == acc:
+                continue
+            v = prog.vars[root]
+            if v.get('fn') != lam_fn.fref_id or v['kind'] not in ('local',):
+                continue
+            decl = [d for d in lam_fn.walk() if d.k == 'VarDecl' and d.decl_id == root]
+            if decl and not lp.is_ancestor_of(decl[0]):
+                problems.append((node, 'local `%s` is declared before the loop over the sub-range and modified inside it (`%s`): its value at index i '
+                                 'depends on where the sub-range started, i.e. on how the runtime split the range' % (v['name'], node.text(40))))
+    for d in lam_fn.walk():
+        if d.k == 'DeclRefExpr' and d.decl_id is not None and par.is_shared(prog, lam_fn, d.decl_id):
+            t = prog.base_type(prog.vars[d.decl_id]['ty']) or {}
+            if (t.get('rec') or '') in ('std::atomic', 'std::atomic_flag'):
+                up = d.up()
+                is_write = up is not None and ((up.k in ('BinaryOperator', 'CXXOperatorCallExpr') and up.op == '=') or
+                                               (up.k == 'MemberExpr' and up.fnref and up.fnref['name'] in ('store', 'fetch_add', 'fetch_or', 'exchange', 'operator=', 'operator++')))
+                if not is_write:
+                    problems.append((d, 'the body reads the shared atomic `%s`: whether it is set depends on which other tasks have already run' % prog.vars[d.decl_id]['name']))
+    if problems:
+        rep.violation('R03e', problems[0][0], fn, what, '; '.join(sorted(set(p[1] for p in problems))), key='R03e|%s|%s' % (fn.g, call.callee['name']))
+    else:
+        rep.ok('R03e', call, fn, what, trivial=not loops)
 
 
 def check_reduce(rep, prog, fn, call):
@@ -273,6 +322,7 @@ def run(rep, tier):
     rep.rule('R03b', 'reduction identity and join', floor=11)
     rep.rule('R03c', 'reduce body folds from its accumulator under the min-update contract', floor=6)
     rep.rule('R03d', 'grown concurrent containers are read after the parallel_for', floor=2)
+    rep.rule('R03e', 'per-index work is independent of the range split and of inter-task timing', floor=10)
     tus = [env.witness_tu()]
     if tier == 'thorough':
         tus += env.repo_tus()
@@ -288,7 +338,7 @@ def run(rep, tier):
     pp = env.extract([pos], 'full')[pos]
     prep = type(rep)(rep.prop, rep.tier)
     check_program(prep, pp)
-    for r in ('R03a', 'R03b', 'R03c', 'R03d'):
+    for r in ('R03a', 'R03b', 'R03c', 'R03d', 'R03e'):
         rep.positive(r, 'witness/positive/c03_races.cc', any(i.status == 'violation' and i.rule == r for i in prep.instances.values()))
     rep.assume('distinct elements of `trees` own disjoint SPNode sets (each SPTree allocates its own nodes; shared_ptr copies are transient), '
                'so trees[i].update_parities() writes element i only')
